@@ -1566,6 +1566,17 @@ def emit_ann_assign(node):""")]),
         key=lambda func: func.lineno,
         default=None,
     )""")]),
+    # ---- VISIT-9 (C19, C06)
+    dict(id="visit9-statement-deleted-at-any-depth", kind=B, props=["C06", "C19"], expect="VISIT-9", edits=[("emitter_utils.py",
+         """    def __init__(self, node_ids):""", """    def visit_Pass(self, node):
+        return None
+
+    def __init__(self, node_ids):""")]),
+    dict(id="visit9-neutral-statement-kept", kind=N, props=["C06", "C19"], expect="silent", edits=[("emitter_utils.py",
+         """    def __init__(self, node_ids):""", """    def visit_Pass(self, node):
+        return node
+
+    def __init__(self, node_ids):""")]),
     # ---- PARAM-KEPT (C07, C03)
     dict(id="paramkept-return-type-popped-in-merge", kind=B, props=["C07", "C03"], expect="PARAM-KEPT", edits=[("parser_utils.py",
          """    if "return_type" not in (target.get("returns") or iter(())):""",
